@@ -144,6 +144,14 @@ def random_cases(ctx):
             case['seq'].insert(rng.randrange(len(seq) + 1), ['cond', num()])
         if rng.random() < 0.1:
             case['write_fail'] = True       # persistent, but the storage refuses its writes
+        if rng.random() < 0.25:
+            # the first events reach the counter while the circuit is still being initialised:
+            # Inputs created before it send their on_output event when they are restored from
+            # the storage (first pass: the counter has done no init step yet) or initialised
+            # from their initdef (second pass: the counter has only done the restore step)
+            evs = [[rng.choice(['restored', 'initdef']), rng.choice(['inc', 'dec', 'put', 'reset']),
+                    rng.randrange(-20, 21)] for _ in range(rng.randrange(1, 4))]
+            case['init_events'] = sorted(evs, key=lambda e: e[0] != 'restored')
         yield case
 
 
@@ -166,6 +174,9 @@ def run_batch(batch, ctx):
     for i, case in enumerate(batch):
         if 'stored' in case:
             dict.__setitem__(storage, f"<Counter 'c{i}'>", dec(case['stored']))
+        for j, (timing, _op, val) in enumerate(case.get('init_events', ())):
+            if timing == 'restored':
+                dict.__setitem__(storage, f"<Input 't{i}x{j}'>", val)
     dict.__setitem__(storage, 'edzed-stop-time', 0.0)
     done = [False] * len(batch)
     state = {'aborted': None}
@@ -176,6 +187,9 @@ def run_batch(batch, ctx):
             kw = {}
             if case['mod'] is not None:
                 kw['modulo'] = case['mod']
+            for j, (timing, op, val) in enumerate(case.get('init_events', ())):
+                edzed.Input(f"t{i}x{j}", on_output=edzed.Event(f"c{i}", op),
+                            **({'persistent': True} if timing == 'restored' else {'initdef': val}))
             blocks.append(edzed.Counter(
                 f"c{i}", initdef=dec(case['initdef']),
                 persistent='stored' in case or bool(case.get('write_fail')), **kw))
@@ -219,7 +233,9 @@ def run_batch(batch, ctx):
 def check_one(case, blk, sim, ctx):
     import edzed
     mod, initdef = case['mod'], dec(case['initdef'])
-    if 'stored' in case:
+    if case.get('init_events'):
+        pass        # judged below
+    elif 'stored' in case:
         v = ref_reduce(dec(case['stored']), mod)
         ctx.count('restore_checked')
         if not same(blk.output, v):
@@ -233,6 +249,19 @@ def check_one(case, blk, sim, ctx):
             raise core.Violation(
                 'initdef-not-reduced',
                 f"modulo={mod} initdef={sr(initdef)}: initial output {sr(blk.output)}, expected {sr(v)}")
+    if case.get('init_events'):
+        # events delivered during the initialisation: the counter had to finish its own
+        # initialisation first and then to handle them like any other event
+        v = ref_reduce(dec(case['stored']), mod) if 'stored' in case else ref_reduce(initdef, mod)
+        for _timing, op, val in case['init_events']:
+            v = ref_apply(v, op, val if op == 'put' else None, mod, initdef)
+            ctx.count('events_during_initialisation')
+        if not same(blk.output, v, mod):
+            raise core.Violation(
+                'events-during-init',
+                f"modulo={mod} initdef={sr(initdef)} stored={sr(dec(case['stored'])) if 'stored' in case else '<none>'}: after "
+                f"the events {case['init_events']} delivered during the circuit initialisation "
+                f"the output is {sr(blk.output)}, reference {sr(v)}")
     for k, (op, arg) in enumerate(case['seq']):
         arg = dec(arg)
         if op == 'cond':
